@@ -264,4 +264,15 @@ theorem C12_namespace_source (env : Env) (hc : env.cfg = genLexCfg) (hnf : env.f
   parse_source env (by rw [hc]; exact gen_rules_progress) hnf F (D + 1 + 1 + 1 + 1)
     (Item.ns env (by rw [hc]; exact gen_rules_progress) hnf F D hskip names body) filename content bE bEE hat heof hF
 
+/-- **concatenation** (`Theorems/WholeParse.lean`): the callbacks of the source `xs ys` (two
+    sequences of items of any length, from any state at non-class scope) split into the group for
+    `xs` and the group for `ys`, each constrained only by its own items and the enclosing block —
+    exactly the constraints the sequence has when it stands alone (`C01_sequence`) -/
+theorem C12_concatenation {env : Env} {F : Nat} {c : P.Core} (xs ys : List (Item env F c)) (w : World) (b1 b' : Buf) (blk : Block)
+    (rest : List Block) (hst : w.stack = blk :: rest) (hk : blk.hdr.kind ≠ .cls) (hmu : w.muted = false)
+    (hx : SeqAt xs w.buf b1) (hy : SeqAt ys b1 b') :
+    ∃ (w7 : World) (e1 e2 : List Event), Ran env F c w (seqSize xs + seqSize ys) b' blk rest (e1 ++ e2) w7 ∧
+      SeqEv blk rest xs e1 ∧ SeqEv blk rest ys e2 :=
+  seq_concat xs ys w b1 b' blk rest hst hk hmu hx hy
+
 end Cxx
